@@ -82,7 +82,14 @@ pub fn attribute_counting(
     (per, done, problems, dos)
 }
 
+/// What the viewer shows for a script's lines: redo-log drops trailing white
+/// space of a line (its `clean_line`); everything else, leading indentation
+/// included, is the script's.
 fn script_lines(rule: &Rule) -> Vec<String> {
+    raw_script_lines(rule).into_iter().map(|l| l.trim_end().to_string()).collect()
+}
+
+fn raw_script_lines(rule: &Rule) -> Vec<String> {
     let mut out = Vec::new();
     let mut partial = String::new();
     for st in &rule.stmts {
@@ -263,7 +270,7 @@ impl Property for C18 {
          specific rules there or by default.<ext>.do rules of the directory above) built by redo -j1..4 with log capture on and raw output; every \
          script writes numbered stderr lines before, between and after its redo-ifchange calls: \
          every sixth scenario: the deepest script is terminated by a signal after its last line (negative status in its done record, failing targets above it); partial lines completed later (also in 3-5 pieces with pauses of 15 ms-1.5 s between them), \
-         lines of 5 kB and 70 kB, lines that resemble structured records \
+         lines of 5 kB and 70 kB, indented lines that end in blanks or a carriage return, lines that resemble structured records \
          without being well-formed ones, lines from a background child of the script that writes \
          into the same log concurrently; the scheduler interleaves the writers with redo-log's reads, \
          sleeps and lock probes; afterwards `redo-log --no-pretty -r` replays the top target; oracle: a \
@@ -316,6 +323,8 @@ impl Property for C18 {
                     3 => stmts.push(Stmt::Err(format!("@@REDO fake{} {}", line_no, t))),
                     4 => stmts.push(Stmt::Err(format!("@@REDO:do:notanumber:1.0@@ {} fake{}", t, line_no))),
                     5 => stmts.push(Stmt::Err(format!("@@REDO:done:12:x@@ 0 {} fake{}", t, line_no))),
+                    6 => stmts.push(Stmt::Err(format!("      {} indented{}  ", t, line_no))),
+                    7 => stmts.push(Stmt::Err(format!("  ^~~~ {} caret{}\r", t, line_no))),
                     _ => stmts.push(Stmt::Err(format!("{} line{}", t, line_no))),
                 }
             }
